@@ -107,6 +107,16 @@ class PROP(Prop):
                 exp = expected_trace(proto, hdrs, reqs, svc)
                 line = "SRV %s %s - - %s" % (proto, mb.rscript(parts, tail), ",".join([svc_tok(e) for e in svc] + ["r=RSI:1:1:-"]))
                 cs.append(Case(line, {"k": "malformed", "proto": proto, "exp": exp, "clean": False}))
+        # --- a header announcing (nearly) the largest frame a u16 length field can, then the stream ends inside that frame: one report
+        for L in (0xFFFF, 0xFFFE, 0xFFFA, 0xFFF9, 0x8000, 0x0100):
+            for extra in (0, 1, 40):
+                k = rng.choice([0, 1, 2])
+                frames, hdrs, reqs, svc = gen_pipeline(rng, "tcp", k)
+                good = b"".join(frames)
+                bad = mb.be16(1) + b"\x00\x00" + mb.be16(L) + b"\x01" + bytes([0x41] * min(extra, 1)) + bytes(max(0, extra - 1))
+                exp = expected_trace("tcp", hdrs, reqs, svc)
+                line = "SRV tcp %s - - %s" % (mb.rscript([good + bad] if rng.random() < 0.5 else [good, bad], ["eof"]), ",".join([svc_tok(e) for e in svc] + ["r=RSI:1:1:-"]))
+                cs.append(Case(line, {"k": "malformed", "proto": "tcp", "exp": exp, "clean": False}))
         # --- the serial RTU server's own loop over a pty: no error callback, the report is the value serve_until returns
         for _ in range(40 if tier == "quick" else 300):
             k = rng.choice([0, 1, 2, 3])
